@@ -3301,6 +3301,171 @@ func attachLayout(repo string) {
 
 // ==== END attachment chunk header layout =====================================================================
 
+// ==== String() methods: inventory of partial operations (C03: "Rendering any successfully parsed value as text is
+// likewise total") =============================================================================================
+// For every method `String() string` of protocol/model, protocol/jt808, protocol/jt1078 and shared/consts:
+//   gen_string_methods  : the receivers (inventory)
+//   gen_string_ops      : (receiver, kind, count) for every kind of operation that can panic or fail to terminate and
+//                         occurs in the body (closures included): index, slice, assert, div, deref, panic, for (a loop
+//                         that is not a range), goto
+//   gen_string_callees  : what the bodies call, apart from fmt.*, strings.*, sort.*, strconv.*, builtins and
+//                         conversions: ".Method" for a method of any receiver, "pkg.Func" for another package's
+//                         function, "name" for a function of the same package
+// The obligations (Gen/TablesOk_strings.v) bound the operations by an audited table and the callees by an audited set.
+func stringOps(repo string) {
+	type key struct{ recv, kind string }
+	ops := map[key]int{}
+	var methods []string
+	callees := map[string]bool{}
+	basePkgs := map[string]bool{"fmt": true, "strings": true, "sort": true, "strconv": true}
+	builtins := map[string]bool{"len": true, "cap": true, "append": true, "make": true, "copy": true, "new": true, "min": true, "max": true, "clear": true, "delete": true,
+		"string": true, "int": true, "int8": true, "int16": true, "int32": true, "int64": true, "uint": true, "uint8": true, "uint16": true, "uint32": true,
+		"uint64": true, "byte": true, "rune": true, "float32": true, "float64": true, "bool": true}
+	for _, dir := range []string{"protocol/model", "protocol/jt808", "protocol/jt1078", "shared/consts"} {
+		files := parseDir(filepath.Join(repo, dir))
+		var names []string
+		for n := range files {
+			names = append(names, n)
+		}
+		sort.Strings(names)
+		short := filepath.Base(dir)
+		for _, n := range names {
+			f := files[n]
+			imports := map[string]bool{}
+			for _, im := range f.Imports {
+				path, _ := strconv.Unquote(im.Path.Value)
+				nm := filepath.Base(path)
+				if im.Name != nil {
+					nm = im.Name.Name
+				}
+				imports[nm] = true
+			}
+			for _, d := range f.Decls {
+				fd, ok := d.(*ast.FuncDecl)
+				if !ok || fd.Recv == nil || fd.Name.Name != "String" || fd.Body == nil || len(fd.Recv.List) != 1 {
+					continue
+				}
+				if fd.Type.Params.NumFields() != 0 || fd.Type.Results.NumFields() != 1 {
+					continue
+				}
+				recv := ""
+				switch t := fd.Recv.List[0].Type.(type) {
+				case *ast.StarExpr:
+					if id, ok := t.X.(*ast.Ident); ok {
+						recv = id.Name
+					}
+				case *ast.Ident:
+					recv = t.Name
+				}
+				if recv == "" {
+					fail("string_ops", "receiver shape of a String method in "+dir+"/"+n)
+					continue
+				}
+				recv = short + "." + recv
+				methods = append(methods, recv)
+				locals := map[string]bool{} // closures bound in the body: their bodies are walked with the rest
+				ast.Inspect(fd.Body, func(x ast.Node) bool {
+					if as, ok := x.(*ast.AssignStmt); ok {
+						for i, r := range as.Rhs {
+							if _, ok := r.(*ast.FuncLit); ok && i < len(as.Lhs) {
+								if id, ok := as.Lhs[i].(*ast.Ident); ok {
+									locals[id.Name] = true
+								}
+							}
+						}
+					}
+					return true
+				})
+				ast.Inspect(fd.Body, func(x ast.Node) bool {
+					switch e := x.(type) {
+					case *ast.IndexExpr:
+						ops[key{recv, "index"}]++
+					case *ast.SliceExpr:
+						ops[key{recv, "slice"}]++
+					case *ast.TypeAssertExpr:
+						ops[key{recv, "assert"}]++
+					case *ast.StarExpr:
+						ops[key{recv, "deref"}]++
+					case *ast.BinaryExpr:
+						if e.Op == token.QUO || e.Op == token.REM {
+							ops[key{recv, "div"}]++
+						}
+					case *ast.AssignStmt:
+						if e.Tok == token.QUO_ASSIGN || e.Tok == token.REM_ASSIGN {
+							ops[key{recv, "div"}]++
+						}
+					case *ast.ForStmt:
+						ops[key{recv, "for"}]++
+					case *ast.BranchStmt:
+						if e.Tok == token.GOTO {
+							ops[key{recv, "goto"}]++
+						}
+					case *ast.CallExpr:
+						switch fn := e.Fun.(type) {
+						case *ast.Ident:
+							switch {
+							case fn.Name == "panic":
+								ops[key{recv, "panic"}]++
+							case builtins[fn.Name] || locals[fn.Name]:
+							default:
+								callees[fn.Name] = true
+							}
+						case *ast.SelectorExpr:
+							if id, ok := fn.X.(*ast.Ident); ok && imports[id.Name] {
+								if !basePkgs[id.Name] {
+									callees[id.Name+"."+fn.Sel.Name] = true
+								}
+							} else {
+								callees["."+fn.Sel.Name] = true
+							}
+						default:
+							callees["(computed)"] = true
+						}
+					}
+					return true
+				})
+			}
+		}
+	}
+	if len(methods) == 0 {
+		fail("string_ops", "no String methods found")
+		return
+	}
+	sort.Strings(methods)
+	var ms []string
+	for _, m := range methods {
+		ms = append(ms, strconv.Quote(m)+"%string")
+	}
+	fmt.Fprintf(&out, "\n(* String() methods of the protocol packages: inventory, partial operations, callees *)\n")
+	fmt.Fprintf(&out, "Definition gen_string_methods : list string := [%s].\n", strings.Join(ms, "; "))
+	var ks []key
+	for k := range ops {
+		ks = append(ks, k)
+	}
+	sort.Slice(ks, func(i, j int) bool {
+		if ks[i].recv != ks[j].recv {
+			return ks[i].recv < ks[j].recv
+		}
+		return ks[i].kind < ks[j].kind
+	})
+	var rows []string
+	for _, k := range ks {
+		rows = append(rows, fmt.Sprintf("(%s%%string, %s%%string, %d)", strconv.Quote(k.recv), strconv.Quote(k.kind), ops[k]))
+	}
+	fmt.Fprintf(&out, "Definition gen_string_ops : list (string * string * N) := [%s].\n", strings.Join(rows, "; "))
+	var cs []string
+	for c := range callees {
+		cs = append(cs, c)
+	}
+	sort.Strings(cs)
+	for i, c := range cs {
+		cs[i] = strconv.Quote(c) + "%string"
+	}
+	fmt.Fprintf(&out, "Definition gen_string_callees : list string := [%s].\n", strings.Join(cs, "; "))
+}
+
+// ==== END String() methods ====================================================================================
+
 func main() {
 	repo := flag.String("repo", "/repo", "repository root")
 	outp := flag.String("out", "", "output .v file")
@@ -3325,6 +3490,7 @@ func main() {
 	frameLayout(*repo)  // header layout of the JT/T 808 frame (C01 C02 C04)
 	jt1078Layout(*repo) // header layout of the JT/T 1078 packet (C17)
 	attachLayout(*repo) // chunk header of the attachment stream (C15)
+	stringOps(*repo)    // String() methods: partial operations and callees (C03)
 	q := make([]string, len(unrecognised))
 	for i, u := range unrecognised {
 		q[i] = strconv.Quote(u) + "%string"
